@@ -42,16 +42,25 @@ theorem nsDeclOK_legalB {p u : Str} (h : nsDeclOK p u = true) (a : Bool) : legal
     simp only [Bool.and_eq_true, decide_eq_true_eq] at h
     simp only
     rw [normUri_of_ne h.2]
-    exact h.1.1
+    exact h.1
 
-theorem nsDeclOK_ne_xml {p u : Str} (h : nsDeclOK p u = true) : p ≠ xmlPrefix := by
+/-- a declaration that is actually taken does not concern the `xml` prefix: the
+    only legal one repeats the permanent binding and is skipped -/
+theorem nsDeclOK_ne_xml {p u : Str} (h : nsDeclOK p u = true) {bs : List Binding} (hx : XmlBound bs)
+    (hne : uriOf bs p ≠ some u) : p ≠ xmlPrefix := by
+  intro e
+  subst e
   unfold nsDeclOK at h
-  by_cases hp : p.isEmpty = true
-  · have : p = [] := by simpa using hp
-    subst this; decide
-  · rw [if_neg hp] at h
-    simp only [Bool.and_eq_true, decide_eq_true_eq] at h
-    exact h.1.2
+  have hp : xmlPrefix.isEmpty = false := by decide
+  simp only [hp, Bool.false_eq_true, if_false, Bool.and_eq_true, decide_eq_true_eq] at h
+  have hl := h.1
+  unfold declLegal at hl
+  simp only [hp, Bool.false_eq_true, if_false, Bool.not_eq_true', Bool.or_eq_false_iff] at hl
+  have hd := hl.1.2
+  simp only [ne_eq, eq_iff_iff, true_iff, Decidable.not_not, decide_eq_false_iff_not] at hd
+  apply hne
+  rw [hd]
+  exact hx
 
 theorem takePending_counter (t : TagSt) (pending : List (Str × Str)) :
     (takePending t pending).counter = t.counter := by
@@ -75,13 +84,14 @@ theorem takePending_inv (base : List Binding) (pending : List (Str × Str)) :
     have hpnot : p ∉ ds.map Prod.fst := (List.nodup_cons.mp hp.nodup).1
     unfold takePending
     split
-    · apply ih _ _ hds
+    · rename_i hc
+      apply ih _ _ hds
       · intro q hq
         simp only [List.map_append, List.map_cons, List.map_nil, List.mem_append, List.mem_singleton, not_or]
         refine ⟨hdis q (by simp [hq]), ?_⟩
         intro e; subst e; exact hpnot hq
       · exact h.push p u false t.counter (hdis p (by simp)) (nsDeclOK_legalB (hp.legal (p, u) (by simp)) false)
-          (nsDeclOK_ne_xml (hp.legal (p, u) (by simp)))
+          (nsDeclOK_ne_xml (hp.legal (p, u) (by simp)) h.xml hc.1)
     · exact ih t h hds (fun q hq => hdis q (by simp [hq]))
 
 /-- prefixes that are not requested keep their binding -/
